@@ -5,7 +5,10 @@ import tempfile
 from . import common
 
 DIR = os.path.join(common.VERIF, '_pki')
-SANS = 'DNS:origin.test,IP:127.0.0.1,IP:::1'
+# a host name longer than the 64 characters an X.509 commonName can hold (labels <= 63 each) -- what names a
+# certificate is the subjectAltName, so such a host is as valid as any other
+LONG_HOST = 'a' * 50 + '.' + 'b' * 40 + '.origin.test'
+SANS = 'DNS:origin.test,IP:127.0.0.1,IP:::1,DNS:' + LONG_HOST
 
 
 def _run(*args):
@@ -15,9 +18,17 @@ def _run(*args):
 
 
 def ensure():
-    marker = os.path.join(DIR, 'ready')
+    marker = os.path.join(DIR, 'ready2')
     if os.path.exists(marker):
         return DIR
+    if os.path.isdir(DIR):
+        # made by an earlier version of this file (other names in the certificates)
+        import shutil
+        try:
+            os.rename(DIR, DIR + '.old.%d' % os.getpid())
+            shutil.rmtree(DIR + '.old.%d' % os.getpid(), ignore_errors=True)
+        except OSError:
+            pass
     tmp = tempfile.mkdtemp(prefix='_pki-', dir=common.VERIF)
     p = lambda n: os.path.join(tmp, n)   # noqa
     # proxy CA + signing key (the key pair used for every generated leaf)
@@ -61,7 +72,7 @@ def ensure():
     # self-signed leaf (not issued by the origin CA)
     _run('req', '-new', '-x509', '-sha256', '-days', '365', '-key', p('origin-key.pem'), '-subj', '/CN=origin.test',
          '-addext', 'subjectAltName=' + SANS, '-out', p('selfsigned.pem'))
-    open(p('ready'), 'w').close()
+    open(p('ready2'), 'w').close()
     try:
         os.rename(tmp, DIR)
     except OSError:
